@@ -59,10 +59,12 @@ def correspond(ctx):
 
 def search(ctx, broken, res0):
     res = Result()
-    cases = sk.gen_cases(ctx, se.NAMES, ctx.pick(12, 30), scale=3)
-    for c in cases:
-        c["absent"] = se.absent_keywords(ctx.rng, c["name"], c["cfg"], c["db"], n=0)
-    sk.direct(ctx, res, cases, oracle_for(res), history=True)
+    for cases in (sk.targeted_cases(ctx, res0), sk.gen_cases(ctx, se.NAMES, ctx.pick(12, 30), scale=3)):
+        for c in cases:
+            c["absent"] = se.absent_keywords(ctx.rng, c["name"], c["cfg"], c["db"], n=0)
+        sk.direct(ctx, res, cases, oracle_for(res), history=True)
+        if res.violations:
+            break
     return res
 
 
